@@ -5,3 +5,6 @@ package go_clipper2
 // verifOn guards the verification hooks; without the "verif" build tag every
 // hook call site is dead code.
 const verifOn = false
+
+// verifExactTriSign is the counter-factual switch of the triSign finding.
+const verifExactTriSign = false
